@@ -415,3 +415,28 @@ Lemma reuse_example :
   | None => False
   end.
 Proof. vm_compute. repeat split; reflexivity. Qed.
+
+(* a NEW connection starts with the marker connTime+5s: left silent for 5 s it is idle for closeIdleConns as well.  Its FIRST request has just been
+   read (Peek returned, Store(0) not yet done) when Shutdown's pass closes it: the goroutine finds it untracked and leaves, no handler is started *)
+Definition fresh_conn_trace : list label :=
+  [LServeStart; LAccept 0; LOpenInc 0; LRegIdle 0; LSetDeadline 0; LTick 5; LSend 0; LPeekOk 0;
+   LSetStop; LCloseListeners; LAcceptFail 0; LCloseDone; LCloseIdle; LReadServing; LReadOpen;
+   LStore0 0; LLoadStop 0; LLookup 0; LUnregIdle 0; LOpenDec 0; LTicker; LCloseIdle; LReadServing; LReadOpen].
+
+Lemma fresh_conn_first_request_is_not_served :
+  (match run (mkCfg false false) init (firstn 13 fresh_conn_trace) with
+   | Some s => map srvClosed (conns s) = [true] /\ map pc (conns s) = [CGotByte]       (* closed as idle with its first request in hand *)
+   | None => False
+   end) /\
+  (match run (mkCfg false false) init fresh_conn_trace with
+   | Some s => sd s = SReturnedNil /\ map started (conns s) = [0] /\ n_lost s = 0
+   | None => False
+   end) /\
+  (* without the 5 s the pass leaves the new connection alone and the request is served *)
+  (match run (mkCfg false false) init [LServeStart; LAccept 0; LOpenInc 0; LRegIdle 0; LSetDeadline 0; LSend 0; LPeekOk 0;
+                                        LSetStop; LCloseListeners; LAcceptFail 0; LCloseDone; LCloseIdle; LReadServing; LReadOpen;
+                                        LStore0 0; LLoadStop 0; LLookup 0; LReadReq 0] with
+   | Some s => map srvClosed (conns s) = [false] /\ n_handlers s = 1
+   | None => False
+   end).
+Proof. vm_compute. repeat split; reflexivity. Qed.
